@@ -730,7 +730,10 @@ def real_accepts(ip, o, counting):
     expect = set()
     for t in o.tnum:
         counting.n = 0
-        c = ip.copy()
+        try:
+            c = ip.copy()
+        except (MemoryError, RecursionError):
+            return None, None
         try:
             c.feed_token(Token(t, ''))
             expect.add(t)
@@ -738,6 +741,8 @@ def real_accepts(ip, o, counting):
             pass
         except Hang:
             return None, None      # a non-terminating trial feed (priority-resolved conflicts): no reference, nothing recorded
+        except (MemoryError, RecursionError):
+            return None, None
         except Exception:   # noqa
             return None, None      # malformed configuration (assert / KeyError): reported by the driver comparison
     counting.n = 0
@@ -1079,7 +1084,7 @@ def correspond(ctx):
                 if hangs >= 2:
                     break
                 # accepts() is observed (model comparison + its own oracle) on the first inputs of every start symbol
-                steps, tree, acc0_, acc_fail = drive(o, tab, start, w, guard=cyclic, with_accepts=(not cyclic and wi < 6))
+                steps, tree, acc0_, acc_fail = drive(o, tab, start, w, guard=cyclic, with_accepts=(not cyclic and complete_ok and wi < 6))
                 if wi == 0:
                     acc0 = acc0_
                 hangs += steps[-1][1] == CODE['hang']
